@@ -22,10 +22,17 @@
 
 // the simple processors' spin lock and shutdown latch are private: name them for the trace
 #define private public
+#define protected public
 #include "opentelemetry/common/spin_lock_mutex.h"
 #include "opentelemetry/sdk/logs/simple_log_record_processor.h"
+#include "opentelemetry/sdk/metrics/export/periodic_exporting_metric_reader.h"
+#include "opentelemetry/sdk/metrics/metric_reader.h"
 #include "opentelemetry/sdk/trace/simple_processor.h"
+#undef protected
 #undef private
+#include "opentelemetry/sdk/metrics/export/metric_producer.h"
+#include "opentelemetry/sdk/metrics/export/periodic_exporting_metric_reader_options.h"
+#include "opentelemetry/sdk/metrics/push_metric_exporter.h"
 
 #include "opentelemetry/sdk/logs/batch_log_record_processor.h"
 #include "opentelemetry/sdk/logs/batch_log_record_processor_options.h"
@@ -348,6 +355,164 @@ void run_simple(const std::vector<std::vector<Tok>> &secs, bool is_span, Out &o,
   (void)is_span;
 }
 
+
+// ------------------------------------------------------------------------------------------------ PERIODIC
+// case  PERIODIC <interval_ms> <timeout_ms> <collect_latency> <export_latency> <fail_mask> | t op.. | s <tid> <flag> ..
+//   PeriodicExportingMetricReader over a harness MetricProducer and PushMetricExporter.  Thread 0 = the reader's periodic
+//   worker (started by SetMetricProducer); application threads are tids 1..n; the collect threads the worker spawns get the
+//   following tids.  ops: r = record one measurement (the producer reports how many were recorded when it is asked),
+//   f <timeout_us> = reader.ForceFlush, h = reader.Shutdown.  The last thread joins the others, shuts the reader down if nobody did.
+//   events: rec n, call flush / ret flush r, call shutdown / ret shutdown r, collect n (Produce: n = measurements recorded so far),
+//   expbegin n / expend r (Export of a collection that saw n measurements), expflush r, expshutdown r, spawn k, join k, setvalue,
+//   fut ready|timeout, and the shim's events on pending / notified / wake / shutdown / the per-cycle cancel flag (unnamed: o<k>).
+//   summary: X <n of every Export, in order> S <exporter Shutdown calls>
+namespace sdkmetrics = opentelemetry::sdk::metrics;
+struct PShared
+{
+  int recorded = 0, collect_latency = 0, export_latency = 0, shutdown_calls = 0, export_calls = 0;
+  unsigned long fail_mask = 0;
+  std::vector<int> exported;
+  int last_collected = 0;
+};
+struct PProducer : sdkmetrics::MetricProducer
+{
+  PShared &sh;
+  explicit PProducer(PShared &s) : sh(s) {}
+  Result Produce() noexcept override
+  {
+    for (int i = 0; i < sh.collect_latency; i++) verif::this_thread::yield();
+    int n = sh.recorded;
+    Sched::I().log("collect " + std::to_string(n));
+    Result r;
+    r.status_ = Status::kSuccess;
+    // the number of measurements travels in the number of (empty) scope entries
+    r.points_.scope_metric_data_.resize((size_t)n);
+    return r;
+  }
+};
+struct PExporter : sdkmetrics::PushMetricExporter
+{
+  PShared &sh;
+  explicit PExporter(PShared &s) : sh(s) {}
+  sdkcommon::ExportResult Export(const sdkmetrics::ResourceMetrics &data) noexcept override
+  {
+    int n = (int)data.scope_metric_data_.size();
+    sh.exported.push_back(n);
+    Sched::I().log("expbegin " + std::to_string(n));
+    for (int i = 0; i < sh.export_latency; i++) verif::this_thread::yield();
+    bool fail = (sh.fail_mask >> (sh.export_calls % 20)) & 1;
+    sh.export_calls++;
+    Sched::I().log(std::string("expend ") + (fail ? "0" : "1"));
+    return fail ? sdkcommon::ExportResult::kFailure : sdkcommon::ExportResult::kSuccess;
+  }
+  sdkmetrics::AggregationTemporality GetAggregationTemporality(sdkmetrics::InstrumentType) const noexcept override
+  {
+    return sdkmetrics::AggregationTemporality::kCumulative;
+  }
+  bool ForceFlush(std::chrono::microseconds) noexcept override
+  {
+    bool r = !((sh.fail_mask >> 20) & 1);
+    Sched::I().log(std::string("expflush ") + (r ? "1" : "0"));
+    return r;
+  }
+  bool Shutdown(std::chrono::microseconds) noexcept override
+  {
+    sh.shutdown_calls++;
+    bool r = !((sh.fail_mask >> 21) & 1);
+    Sched::I().log(std::string("expshutdown ") + (r ? "1" : "0"));
+    return r;
+  }
+};
+
+void run_periodic(const std::vector<std::vector<Tok>> &secs, Out &o)
+{
+  const auto &h = secs[0];
+  Sched &S      = Sched::I();
+  S.reset();
+  PShared sh;
+  sdkmetrics::PeriodicExportingMetricReaderOptions opt;
+  opt.export_interval_millis = std::chrono::milliseconds(h[1].as_ll());
+  opt.export_timeout_millis  = std::chrono::milliseconds(h[2].as_ll());
+  sh.collect_latency         = (int)h[3].as_ll();
+  sh.export_latency          = (int)h[4].as_ll();
+  sh.fail_mask               = (unsigned long)h[5].as_ull();
+  std::vector<std::vector<Tok>> scripts;
+  for (size_t i = 1; i < secs.size(); i++)
+  {
+    if (secs[i].empty()) continue;
+    if (secs[i][0].is_tag("t"))
+      scripts.emplace_back(secs[i].begin() + 1, secs[i].end());
+    else if (secs[i][0].is_tag("s"))
+      S.set_schedule(parse_schedule(std::vector<Tok>(secs[i].begin() + 1, secs[i].end())));
+  }
+  PProducer producer(sh);
+  auto *reader = new sdkmetrics::PeriodicExportingMetricReader(std::unique_ptr<sdkmetrics::PushMetricExporter>(new PExporter(sh)), opt);
+  S.name(&reader->force_flush_pending_sequence_, "pending");
+  S.name(&reader->force_flush_notified_sequence_, "notified");
+  S.name(&reader->is_force_wakeup_background_worker_, "wake");
+  S.name(&reader->shutdown_, "shutdown");
+  S.name(&reader->cv_, "cv");
+  S.name(&reader->force_flush_cv_, "ff_cv");
+  S.name(&reader->cv_m_, "cv_m");
+  S.name(&reader->force_flush_m_, "ff_m");
+  reader->SetMetricProducer(&producer);  // OnInitialized: spawns the worker = logical thread 0
+  std::vector<int> app_tids;
+  bool shut = false;
+  for (size_t t = 0; t < scripts.size(); t++)
+  {
+    int tid = S.spawn([&, t] {
+      const auto &sc = scripts[t];
+      for (size_t i = 0; i < sc.size(); i++)
+      {
+        if (sc[i].is_tag("r"))
+        {
+          Sched::I().point(Pending{});
+          sh.recorded++;
+          S.log("rec " + std::to_string(sh.recorded));
+        }
+        else if (sc[i].is_tag("f") && i + 1 < sc.size())
+        {
+          long long us = sc[++i].as_ll();
+          S.log("call flush");
+          bool r = us > 0 ? reader->ForceFlush(std::chrono::microseconds(us)) : reader->ForceFlush();
+          S.log(std::string("ret flush ") + (r ? "1" : "0"));
+        }
+        else if (sc[i].is_tag("h"))
+        {
+          S.log("call shutdown");
+          shut   = true;
+          bool r = reader->Shutdown();
+          S.log(std::string("ret shutdown ") + (r ? "1" : "0"));
+        }
+      }
+    });
+    app_tids.push_back(tid);
+  }
+  S.spawn([&] {
+    for (int tid : app_tids)
+    {
+      Pending p;
+      p.kind   = P_JOIN;
+      p.target = tid;
+      S.point(p);
+    }
+    if (!shut)
+    {
+      S.log("call shutdown");
+      bool r = reader->Shutdown();
+      S.log(std::string("ret shutdown ") + (r ? "1" : "0"));
+    }
+  });
+  S.set_step_limit(100000);
+  S.run_all();
+  delete reader;
+  o.tag("X");
+  for (int n : sh.exported) o.num(n);
+  o.tag("S").num(sh.shutdown_calls);
+  o.tag("||");
+  o.add(S.log_line());
+}
+
 // ------------------------------------------------------------------------------------------------ COMPOSE
 // case  COMPOSE <trace|logs|metrics> | c <flushmask> <shutmask> | c .. | o <f|h> ..
 //   one "c" section per child (a SpanProcessor / LogRecordProcessor / MetricReader whose k-th ForceFlush resp. Shutdown
@@ -490,6 +655,11 @@ int main(int argc, char **argv)
   opentelemetry::sdk::common::internal_log::GlobalLogHandler::SetLogLevel(opentelemetry::sdk::common::internal_log::LogLevel::None);
   return run_cases_forked(argc, argv, [](const std::vector<Tok> &t, Out &o) {
     auto secs = split_toks(t, "|");
+    if (t.size() >= 6 && t[0].is_tag("PERIODIC") && secs[0].size() >= 6)
+    {
+      run_periodic(secs, o);
+      return;
+    }
     if (t.size() >= 4 && t[0].is_tag("SIMPLE") && secs[0].size() >= 4)
     {
       if (t[1].is_tag("span"))
